@@ -738,6 +738,13 @@ const SET_KILL_GROUPS: &[(&str, &[&str])] = &[
     ("", &["kill -s 0 $$", "kill -0 $$", "kill -n 0 $$", "kill -s 0 -- $$", "kill -n0 $$"]),
     ("", &["kill -l", "kill -l --"]),
     ("", &["kill -l USR1", "kill -l -- USR1"]),
+    // only the first `--` ends the options: what follows is an operand even if it is `--` or looks like an option
+    ("", &["trap -- -- USR2", "trap -- \\-- USR2", "trap -- '--' USR2"]),
+    ("", &["trap -- -p USR2", "trap -- '-p' USR2", "trap -- \\-p USR2"]),
+    ("trap -- -- USR2", &["trap -- - USR2", "trap - USR2"]),
+    ("x=1", &["unset -- -- x", "unset -v -- -- x", "unset -- x --"]),
+    ("", &["set -- -- a", "set - -- a"]),
+    ("", &["set -- -f --", "set - -f --"]),
 ];
 
 const SET_KILL_MALFORMED: &[(&str, &str)] = &[
